@@ -38,13 +38,17 @@ def run(rep):
     rep.rule = ("S->I: every dependency structure [reference -> set of other references] x never-resolving subset "
                 "x file layouts enumerated by TLC (<= 3 references: all; 4 references: all 4096 structures, quick "
                 "without / thorough with never-resolving subsets), plus the mixed family (schedules x dependencies x "
-                "never x unknown over <= 3 references), loaded with real textX; I->S: the provider calls of those "
+                "never x unknown over <= 3 references), the object-structure family (one object with two reference lists "
+                "[and a single reference]; a parent and its first child starting at the same position, both with a list "
+                "of the same name) over <= 3 (thorough 4) references and lists naming a target twice, loaded with real "
+                "textX, one metamodel per worker process reused for all loads (earlier models dropped); I->S: the provider calls of those "
                 "loads plus seeded-random scenarios (<= 3 files, <= 9 references) validated by TLC. Non-trivial: at "
                 "least one dependency or never-resolving reference; distinct by scenario content.")
     rep.assumptions = [
-        "references are told apart by unique target names (the error message gives name, class and a position "
-        "computed by the main parser, so the name identifies the reference)",
-        "attribute contents are compared as sets here: the order inside a list attribute is C08's clause",
+        "attribute contents are compared exactly (as sequences): 'the result does not depend on which order is "
+        "taken' includes the content of every list attribute",
+        "references are told apart by their position in the text; several references may name the same target, the "
+        "error message is compared as the multiset of target names it mentions",
         "the provider is the inner provider of textx.scoping.providers.ImportURI registered under '*.*', so the "
         "references of all files are resolved by the main model's loop",
         "every rendered file holds at least one definition",
@@ -68,9 +72,9 @@ def run(rep):
         if r.violated is None:
             raise tlc.MachineryError(f"deviation {d} does not violate C09 in the module")
     # conformance
-    # c09quick = c09small + c09four + mixed, c09thorough = c09small + c09never + mixed (MC_LoaderResolve.tla)
+    # c09quick = c09small + c09four + mixed + c09grp + c09dup; c09thorough adds c09never, c09grpfour (MC_LoaderResolve.tla)
     families = ["c09quick"] if quick else ["c09thorough"]
-    stats = R.conformance(rep, families, "set", devs, _nontrivial, 300 if quick else 4000, rng,
+    stats = R.conformance(rep, families, "seq", devs, _nontrivial, 300 if quick else 4000, rng,
                           dict(max_files=3, max_refs=9, max_sched=2, p_dep=0.3, p_never=0.1, p_unknown=0.03))
     rep.exhaustive = True
     rep.bounds.update(stats)
